@@ -126,3 +126,11 @@ Record rmodule := mkModule {
   m_impl_for : string;                      (* impl GraphQLQuery for <ident> *)
   m_impl_body : list (string * string)      (* (QueryBody member, constant it is filled from) *)
 }.
+
+Definition rmodule_eqb (a b : rmodule) : bool :=
+  opt_eqb (fun x y => String.eqb (fst x) (fst y) && vis_eqb (snd x) (snd y)) (m_struct_decl a) (m_struct_decl b) &&
+  String.eqb (m_name a) (m_name b) && vis_eqb (m_vis a) (m_vis b) &&
+  String.eqb (m_operation_name a) (m_operation_name b) && String.eqb (m_query a) (m_query b) &&
+  ostr_eqb (m_include a) (m_include b) && list_eqb lstr_eqb (m_uses a) (m_uses b) &&
+  list_eqb ritem_eqb (m_items a) (m_items b) && String.eqb (m_impl_for a) (m_impl_for b) &&
+  list_eqb pair_eqb (m_impl_body a) (m_impl_body b).
